@@ -479,7 +479,13 @@ func (c *tunnelChannel) recvLoop() {
 		}
 		supportedRevisions := c.tunnelOpts.supportedRevisions()
 		var supported bool
-		for _, rev := range settings.Settings.SupportedProtocolRevisions {
+		serverRevisions := settings.Settings.SupportedProtocolRevisions
+		if len(serverRevisions) == 0 {
+			// Per the protocol docs, a server that lists no revisions
+			// supports only revision zero.
+			serverRevisions = []tunnelpb.ProtocolRevision{tunnelpb.ProtocolRevision_REVISION_ZERO}
+		}
+		for _, rev := range serverRevisions {
 			switch {
 			case inSlice(rev, supportedRevisions):
 				if rev > c.useRevision {
